@@ -119,14 +119,14 @@ func buildNS(name string, shape int, f []string, userNS bool) *models.Namespace 
 		uns = name
 	}
 	ns := &models.Namespace{
-		Name:          name,
-		Online:        true,
-		AllowedDBS:    map[string]bool{"db1": true, "db_<&>": false},
-		DefaultPhyDBS: map[string]string{"db1": "db1_phy", "db_<&>": "p "},
-		SlowSQLTime:   "1000",
-		BlackSQL:      []string{"", "select '<a&b>' from t where x = \"\\\""},
-		AllowedIP:     []string{"127.0.0.1", " 10.0.0.0/8 "},
-		DefaultSlice:  "slice-0",
+		Name:              name,
+		Online:            true,
+		AllowedDBS:        map[string]bool{"db1": true, "db_<&>": false},
+		DefaultPhyDBS:     map[string]string{"db1": "db1_phy", "db_<&>": "p "},
+		SlowSQLTime:       "1000",
+		BlackSQL:          []string{"", "select '<a&b>' from t where x = \"\\\""},
+		AllowedIP:         []string{"127.0.0.1", " 10.0.0.0/8 "},
+		DefaultSlice:      "slice-0",
 		MaxSqlExecuteTime: 5, MaxClientConnections: 100, SecondsBehindMaster: 1 << 40,
 		ClientQPSLimit: 7, FuseEnabled: "ON", FuseWindowSize: 10, FallbackToMasterOnSlaveFail: "off",
 		GlobalSequences: []*models.GlobalSequence{{DB: "db1", Table: "t", Type: "mycat", SliceName: "slice-0", PKName: "id", MaxLimit: 1 << 50}},
